@@ -12,10 +12,45 @@ Theorem C07_once : forall s, reachable s -> ik_once (persisted s).
 Proof. exact e2_ik_once. Qed.
 Print Assumptions C07_once.
 
-(* every request carrying the key that reports success (not a preview) reports the outcome of that single entry *)
-Theorem C07_same_outcome : forall s, reachable s -> ik_same_outcome s.
-Proof. exact e2_ik_same_outcome. Qed.
-Print Assumptions C07_same_outcome.
+(* "every success carrying key k answers the outcome of that single entry".  The full statement is FALSE of the model
+   (and of the code, known finding "idempotency key stored by another kind of write"): SaveMetadata / DeleteMetadata
+   that find an entry under their key do not look at it -- when it was stored by a transaction they write nothing and
+   still report success, with no transaction id.  Following the convention of this development the full statement is
+   kept visible, refuted by a witness, proved for retries of the same kind of write (no hypothesis on the state), and
+   proved as stated under the executable hypothesis [ik_kind_consistent_b] that excludes exactly that class. *)
+Definition C07_same_outcome_statement : Prop := forall s, reachable s -> ik_same_outcome s.
+
+Theorem C07_same_outcome_refuted : ~ C07_same_outcome_statement.
+Proof. intros S. destruct e2_ik_same_outcome_refuted as [s [Hr Hn]]. exact (Hn (S s Hr)). Qed.
+Print Assumptions C07_same_outcome_refuted.
+
+(* the witness: a transaction committed with key 5, then a SaveMeta carrying key 5 answers [ROk None] *)
+Example C07_same_outcome_refuted_witness :
+  exists s e th, run init e2_c07_mixed = Some s /\ persisted s = [e] /\ get_thread (threads s) 2 = Some th /\
+    t_resp th = Some (ROk None) /\ rq_dry (t_req th) = false /\ rq_ik (t_req th) = 5%N /\
+    e_ik e = 5%N /\ e_txid e = Some 0 /\ e_kind e = KCreate /\ rq_kind (t_req th) = KSaveMeta.
+Proof. exact e2_c07_mixed_witness. Qed.
+
+(* retries of the same kind of write: every non-preview success of a request with key k <> 0 whose kind is the kind of
+   the persisted entry carrying k reports that entry's outcome.  Unconditional. *)
+Theorem C07_same_outcome_same_kind : forall s, reachable s ->
+  forall t th x e, get_thread (threads s) t = Some th -> t_resp th = Some (ROk x) -> rq_dry (t_req th) = false ->
+    rq_ik (t_req th) <> 0%N -> In e (persisted s) -> e_ik e = rq_ik (t_req th) ->
+    same_kind (e_kind e) (rq_kind (t_req th)) = true -> e_txid e = x.
+Proof. exact e2_ik_same_outcome_same_kind. Qed.
+Print Assumptions C07_same_outcome_same_kind.
+
+(* the statement as given, in every reachable state where no request shares its key with a persisted entry of another
+   kind of write *)
+Definition ik_kind_consistent_b (s : state) : bool :=
+  forallb (fun p => let rq := t_req (snd p) in
+                    N.eqb (rq_ik rq) 0 ||
+                    forallb (fun e => negb (N.eqb (e_ik e) (rq_ik rq)) || same_kind (e_kind e) (rq_kind rq)) (persisted s))
+          (threads s).
+
+Theorem C07_same_outcome_partial : forall s, reachable s -> ik_kind_consistent_b s = true -> ik_same_outcome s.
+Proof. exact e2_ik_same_outcome_partial. Qed.
+Print Assumptions C07_same_outcome_partial.
 
 (* [ik_once] counts the key STORED ON the entries.  The stored key is the key of the request that produced the entry,
    for every kind of write (this is what the code before 28239f3 got wrong for metadata writes) ... *)
